@@ -122,6 +122,10 @@ pub trait Prop: Sync {
     fn needs_warm_up(&self) -> bool {
         true
     }
+    /// wall-clock watchdog per run in a batch (a confirmation in a new process gets five times as much)
+    fn watchdog_s(&self) -> u64 {
+        60
+    }
     /// a feature of the scenario that narrows violation signatures (engine SCHED: which callbacks are installed)
     fn qualifier(&self, _scenario: &Value) -> String {
         String::new()
@@ -249,10 +253,10 @@ pub fn worker_main(prop: &'static dyn Prop, seed: u64, start: u64, stride: u64, 
             let _ = writeln!(o, "START {}", idx);
             let _ = o.flush();
         }
-        let res = run_on_pristine_thread(prop, &sc, Duration::from_secs(30));
+        let res = run_on_pristine_thread(prop, &sc, Duration::from_secs(prop.watchdog_s()));
         match res {
             None => {
-                let v = Violation::new(format!("{}/hang", prop.id()), 0, "run exceeded the 30 s wall-clock watchdog");
+                let v = Violation::new(format!("{}/hang", prop.id()), 0, "run exceeded the wall-clock watchdog");
                 let mut o = out.lock();
                 let _ = writeln!(o, "FAIL {} 0 {}", idx, serde_json::to_string(&v).unwrap());
                 emit_stats(&mut o, runs, &total, &hashes, &nontrivial_hashes, &states, &sample);
@@ -319,7 +323,7 @@ pub fn one_main(prop: &'static dyn Prop, scenario: &Value) -> (Option<Violation>
     worker_init(prop);
     seams::set_verbose_panics(true);
     eprintln!("QUALIFIER {}", prop.qualifier(scenario));
-    match run_on_pristine_thread(prop, scenario, Duration::from_secs(60)) {
+    match run_on_pristine_thread(prop, scenario, Duration::from_secs(prop.watchdog_s() * 5)) {
         None => (
             Some(Violation::new(format!("{}/hang", prop.id()), 0, "run exceeded the watchdog")),
             0,
@@ -672,6 +676,12 @@ pub fn batch_main(prop: &'static dyn Prop, opts: BatchOpts) -> i32 {
         if sig.starts_with("HARNESS") || conf_sig.starts_with("HARNESS") {
             println!("HARNESS-ERROR property={} idx={} {} / confirm: {} {}", prop.id(), idx, sig, conf_sig, conf.detail);
             exit_code = 2;
+            continue;
+        }
+        if sig.ends_with("/hang") && conf.signature.is_none() {
+            // the watchdog is wall-clock based: under machine load a long run can trip it; the same
+            // scenario alone, with five times the budget, terminated normally -> not a hang
+            println!("note: property={} idx={} tripped the batch watchdog but terminates normally when run alone (machine load); not a violation", prop.id(), idx);
             continue;
         }
         let abortish = sig.ends_with("/abort") || conf_sig.ends_with("/abort") || conf_sig.ends_with("+abort");
